@@ -105,10 +105,11 @@ def handle : List String → String
       | "keyorigin.parse" => runKeyOrigin mode b
       | "xkey.parse" => runCodec xkey rXKey none' mode b
       | "psbtmap.parse" => Psbt.runMap mode b
-      | "psbtin.reser0" => Psbt.runReserIn 0 b
-      | "psbtin.reser2" => Psbt.runReserIn 2 b
-      | "psbtout.reser0" => Psbt.runReserOut 0 b
-      | "psbtout.reser2" => Psbt.runReserOut 2 b
+      | "psbtin.reser0" => Psbt.runReser Psbt.specIn 0 b
+      | "psbtin.reser2" => Psbt.runReser Psbt.specIn 2 b
+      | "psbtglobal.reser" => Psbt.runReserGlobal b
+      | "psbtout.reser0" => Psbt.runReser Psbt.specOut 0 b
+      | "psbtout.reser2" => Psbt.runReser Psbt.specOut 2 b
       | "psbtmap.norm" => Psbt.runNorm mode b
       | _ => "bad-op"
   | _ => "bad-op"
